@@ -39,6 +39,6 @@ StrictSubset == (Terminated /\ tok.fl.strict /\ ~tok.fl.trailing /\ tok.err = "s
                     LET p == Permissive(Body) IN p.ok => p.ext = {}
 \* default mode accepts every text that is valid up to the listed extensions
 DefaultAccepts == (Terminated /\ ~tok.fl.strict) =>
-                    LET p == Permissive(Body) IN (p.ok /\ MaxDepthOf(Denote(Body)) <= D - 1 /\ Denote(Body).prefix) => tok.err = "success"
+                    LET p == Permissive(Body) IN (p.ok /\ p.maxd <= D - 1) => tok.err = "success"
 EscOnly == (~tok.done /\ Top(tok).st = "string") => (tok'.done \/ Top(tok').st # "string")
 ====
